@@ -27,6 +27,7 @@ class Program:
         self.by_name = {}
         self.flags = []
         self.notes = []
+        self.callbacks = False
 
     def add(self, e):
         self.entities.append(e)
@@ -154,6 +155,19 @@ def _gen_record(prog, rng, idx, kw):
         elif rng.chance(120):
             lines.append(f"    ~{name}();")
     for k in range(nf):
+        if rng.chance(140):
+            # an anonymous aggregate member: `struct { ... };` (its fields are
+            # injected into the parent) or `union { ... } fK;`
+            akw = rng.pick(["struct", "union"])
+            inner = []
+            for m in range(1 + rng.below(3)):
+                t = _use(prog, rng, hard, soft, allow_incomplete_self=name)
+                if ":" in t or "&" in t:
+                    t = "int %s"
+                inner.append("        " + (t % f"a{k}_{m}") + ";")
+            decl = "" if rng.chance(600) else f" f{k}"
+            lines.append(f"    {akw} {{\n" + "\n".join(inner) + f"\n    }}{decl};")
+            continue
         t = _use(prog, rng, hard, soft, allow_incomplete_self=name)
         if ":" in t and kw == "union":
             t = "int %s"
@@ -306,8 +320,12 @@ def _gen_flags(prog, rng):
         if rng.chance(p):
             flags.append(f)
     recs = prog.names(("struct", "union", "template"))
-    if recs and rng.chance(250):
+    if recs and rng.chance(300):
         flags += ["--blocklist-type", rng.pick(recs)]
+        # the library-only callback that tells bindgen which traits a
+        # block-listed type implements (the only source of `Manually` for
+        # PartialEq); the driver answers as a fixed function of the name
+        prog.callbacks = rng.chance(700)
     if recs and rng.chance(250):
         flags += ["--opaque-type", rng.pick(recs)]
     if recs and rng.chance(250):
